@@ -3,6 +3,8 @@ pub mod cache;
 pub mod client;
 pub mod server;
 pub mod tsig;
+pub mod xfr;
+pub mod xfr_server;
 pub mod zone_answers;
 pub mod zonestore;
 
@@ -16,6 +18,8 @@ pub fn scenario_by_name(name: &str) -> Option<Arc<dyn Scenario>> {
         "builder" => Arc::new(builder::BuilderScn),
         "server" => Arc::new(server::ServerScn),
         "tsig" => Arc::new(tsig::TsigScn),
+        "xfr" => Arc::new(xfr::XfrScn),
+        "xfr_server" => Arc::new(xfr_server::XfrServerScn),
         "zone_isolation" => Arc::new(zonestore::IsolationScn),
         "zone_answers" => Arc::new(zone_answers::AnswersScn),
         _ => return None,
@@ -25,6 +29,11 @@ pub fn scenario_by_name(name: &str) -> Option<Arc<dyn Scenario>> {
 
 pub fn check_spec(property: &str) -> Option<CheckSpec> {
     let spec = match property {
+        "C10" => CheckSpec {
+            property: "C10",
+            level: "exploration",
+            scenarios: vec![(Arc::new(xfr::XfrScn), 20_000, 600_000), (Arc::new(xfr_server::XfrServerScn), 4_000, 150_000)],
+        },
         "C11" => CheckSpec {
             property: "C11",
             level: "exploration",
